@@ -2,9 +2,10 @@ package main
 
 import (
 	"fmt"
-	"os"
+	"go/ast"
+	"go/constant"
+	"go/token"
 	"path/filepath"
-	"regexp"
 	"strings"
 )
 
@@ -91,13 +92,90 @@ func checkC12(c *Check) {
 			c.Ob("interp/tl2-slot-numbering", fn, strings.Contains(t, slotBit) && strings.Contains(t, slotBoundary), r.pos(ir.Info.Decl.Pos()), "presence bit "+slotBit+" and a new block byte when "+slotBoundary)
 		}
 	}
-	if src, err := os.ReadFile(filepath.Join(repoDir, "internal/puregen/gengo/qt_struct.qtpl.go")); err == nil {
-		bits := len(regexp.MustCompile(`1 << \(\(fieldIndex \+ 1\) % 8\)`).FindAllIndex(src, -1))
-		bounds := len(regexp.MustCompile(`\(fieldIndex\+1\)%8 == 0`).FindAllIndex(src, -1))
-		other := len(regexp.MustCompile(`fieldIndex[^\n]{0,12}% ?8`).FindAllIndex(src, -1))
-		c.Ob("interp/tl2-slot-numbering", "generator template qt_struct", bits >= 3 && bounds >= 3 && other == bits+bounds, "internal/puregen/gengo/qt_struct.qtpl.go", fmt.Sprintf("the generator computes slots with 1 << ((fieldIndex+1)%%8) (%d sites) and (fieldIndex+1)%%8 == 0 (%d sites); no other modulo-8 expression on the field index (%d)", bits, bounds, other))
-	} else {
-		c.Undecided("interp/tl2-slot-numbering", "generator template", "", err.Error())
+	// (3b) the block step is taken for every field index: nothing leaves the iteration before the boundary test
+	// (the generated code starts the next block byte even when the boundary field itself is omitted or absent)
+	for _, fn := range []string{"KernelValueStruct.ReadFieldsTL2", "KernelValueStruct.WriteTL2"} {
+		ir := r.ir(P + fn)
+		if ir == nil {
+			continue
+		}
+		found, early := false, ""
+		walkBlock(ir.Body, nil, func(n Node, _ []Guard) {
+			l, ok := n.(*LoopN)
+			if !ok || found {
+				return
+			}
+			for i, st := range l.Body {
+				in, isIf := st.(*IfN)
+				if !isIf || in.Cond.String() != "!nz(((* + #1) % #8))" {
+					continue
+				}
+				found = true
+				walkBlock(l.Body[:i], nil, func(x Node, _ []Guard) {
+					switch x := x.(type) {
+					case *BranchN:
+						early = x.Tok.String()
+					case *ReturnN:
+						early = "return"
+					}
+				})
+			}
+		})
+		c.Ob("interp/tl2-block-step-for-every-field", fn, found && early == "", r.pos(ir.Info.Decl.Pos()), fmt.Sprintf("the boundary test `(i+1)%%8 == 0` is a top-level statement of the field loop (%v) and no continue/break/return precedes it in the iteration (%q)", found, early))
+	}
+	// the generator's struct template computes slots the same way: every `% 8` expression in it is `(e + 1) % 8`, used
+	// either as a shift count of the constant 1 or compared with 0 (type-checked syntax tree; names are irrelevant)
+	if rg := loadRepoFuncs(c, "./internal/puregen/gengo"); rg != nil {
+		bits, bounds, other := 0, 0, 0
+		for name, fi := range rg.funcs {
+			if !strings.HasPrefix(name, "internal/puregen/gengo.") || fi.Decl.Body == nil || filepath.Base(rg.co.Fset.Position(fi.Decl.Pos()).Filename) != "qt_struct.qtpl.go" {
+				continue
+			}
+			info := fi.Pkg.TypesInfo
+			isConst := func(e ast.Expr, v int64) bool {
+				tv, ok := info.Types[e]
+				if !ok || tv.Value == nil {
+					return false
+				}
+				x, exact := constant.Int64Val(constant.ToInt(tv.Value))
+				return exact && x == v
+			}
+			var stack []ast.Node
+			ast.Inspect(fi.Decl.Body, func(n ast.Node) bool {
+				if n == nil {
+					stack = stack[:len(stack)-1]
+					return true
+				}
+				stack = append(stack, n)
+				be, ok := n.(*ast.BinaryExpr)
+				if !ok || be.Op != token.REM || !isConst(be.Y, 8) {
+					return true
+				}
+				plus1 := false
+				if in, ok := ast.Unparen(be.X).(*ast.BinaryExpr); ok && in.Op == token.ADD && (isConst(in.Y, 1) || isConst(in.X, 1)) {
+					plus1 = true
+				}
+				// nearest non-paren ancestor
+				var parent ast.Node
+				for i := len(stack) - 2; i >= 0; i-- {
+					if _, isP := stack[i].(*ast.ParenExpr); !isP {
+						parent = stack[i]
+						break
+					}
+				}
+				pb, _ := parent.(*ast.BinaryExpr)
+				switch {
+				case plus1 && pb != nil && pb.Op == token.SHL && isConst(pb.X, 1):
+					bits++
+				case plus1 && pb != nil && pb.Op == token.EQL && isConst(pb.Y, 0):
+					bounds++
+				default:
+					other++
+				}
+				return true
+			})
+		}
+		c.Ob("interp/tl2-slot-numbering", "generator template qt_struct", bits >= 3 && bounds >= 3 && other == 0, "internal/puregen/gengo/qt_struct.qtpl.go", fmt.Sprintf("the generator computes slots with 1 << ((i+1)%%8) (%d sites) and (i+1)%%8 == 0 (%d sites); other modulo-8 expressions: %d", bits, bounds, other))
 	}
 	if ir := r.ir(P + "KernelValueStruct.WriteTL2"); ir != nil {
 		t := flatText(irText(ir))
